@@ -17,6 +17,8 @@ var sendWorkers = []string{"transports.(*polling).send", "transports.(*websocket
 
 func init() {
 	register("C01", func(c *core.Ctx, tier string) {
+		accessorAgreement(c, "C01.17")
+		constructorChain(c, "C01.18")
 		c01BufferWriters(c)
 		c01TakeAndSend(c)
 		c01WritableGate(c)
